@@ -35,6 +35,8 @@ rule("C19.j", "the points of a grid built from start / end / freq begin at the g
               "does not begin there (calendar-anchored frequencies 'W', 'MS' ... begin at the first anchor after the start)", floor=1)
 rule("C19.k", "an extreme timestamp (pd.Timestamp.max / .min, used for 'valid for ever') never has a zone attached or time added: west of "
               "UTC the localised value lies beyond the representable range and the interval silently becomes empty", floor=0)
+rule("C14.i", "Dt - the time elapsed since the start of the *reference* grid, kept for discounting - is not used as a duration by an asset's "
+              "set-up: the active duration of a window is restricted.dt.sum()", floor=0, props=["C14", "C16", "C08"])
 NO_STRIP = "a date that reaches the zone case analysis has not passed a conversion that silently drops its zone (.values on a frame " \
            "column, a datetime64 cast, tz_localize(None)) - neither in the function nor where the constructor stored it"
 rule("C19.h", "interval data and asset windows: " + NO_STRIP, floor=2)
@@ -214,7 +216,7 @@ def _zone_cases(ctx):
     return counts
 
 
-@analysis("intervals", ["C19.a", "C19.b", "C19.c", "C19.e", "C19.g", "C15.g", "C20.h", "C11.i", "C19.h", "C20.i", "C15.h", "C19.i", "C19.j", "C19.k"])
+@analysis("intervals", ["C19.a", "C19.b", "C19.c", "C19.e", "C19.g", "C15.g", "C20.h", "C11.i", "C19.h", "C20.i", "C15.h", "C19.i", "C19.j", "C19.k", "C14.i"])
 def run(ctx):
     p = ctx.p
     zc = _zone_cases(ctx)
@@ -433,6 +435,17 @@ def run(ctx):
                    "inactive there (hourly grid of 84 h with a daily asset: 72 steps covered; two weeks with 'W': one of two)" % (seq_name or au.U(seq)),
                    node=lp, ok_detail="opened with the window start and closed with the window end")
     ctx.require(n_c >= 8, "fewer than 8 sub-grid attribute assignments found in Timegrid.__init__", rules=['C19.c', 'C19.i', 'C19.j'])
+    # ---- C14.i: readers of Dt in set-ups
+    for fn2 in sorted(p.all_functions(), key=lambda f: f.qualname):
+        if fn2.cls is None or not p.is_subclass(fn2.cls, "Asset"):
+            continue
+        for x in au.walk_local(fn2.node, include_self=False):
+            if isinstance(x, ast.Attribute) and x.attr == "Dt" and isinstance(x.ctx, ast.Load):
+                ctx.ob("C14.i", fn2, au.short(p.parent(x) if isinstance(p.parent(x), ast.Subscript) else x, 60), False,
+                       "Dt of a (restricted / interval) grid is sliced from the reference grid: it is the time elapsed since the start of the "
+                       "original horizon, not the length of this window. Used as a duration it charges an asset that starts late - or any "
+                       "interval of a split optimisation after the first - for all the time before its own window (fix costs of a scaled "
+                       "asset: 24, 48, 72 h for three daily intervals instead of 24 each; split value -30198 vs unsplit -15798)", node=x)
     # ---- C19.j: the main grid's own range
     main_ranges = [st for st in au.walk_stmts(init.body) if isinstance(st, ast.Assign) and isinstance(st.targets[0], ast.Name)
                    and isinstance(st.value, ast.Call) and au.method_name(st.value) == "date_range"
